@@ -33,6 +33,30 @@ Theorem c07_target_sig_dynamic : forall s, print_sig (dynamic_impl_receiver s) =
 Proof. exact dynamic_receiver_sig. Qed.
 Print Assumptions c07_target_sig_dynamic.
 
+(** ... and with the async rewrite of generated traits on top ([Proj3.c07_target_sig_full]): exactly what the
+    target trait's methods print as ([make_trait_fn_sig] of the receiver-rewritten signature) *)
+Theorem c07_target_sig_full_static : forall subs o s,
+  print_sig (make_trait_fn_sig (static_impl_receiver s) subs o)
+  = c07_target_sig_full false (contains_async_trait subs) (future_send o) s.
+Proof. exact static_target_sig_full. Qed.
+Print Assumptions c07_target_sig_full_static.
+
+Theorem c07_target_sig_full_dynamic : forall subs o s,
+  print_sig (make_trait_fn_sig (dynamic_impl_receiver s) subs o)
+  = c07_target_sig_full true (contains_async_trait subs) (future_send o) s.
+Proof. exact dynamic_target_sig_full. Qed.
+Print Assumptions c07_target_sig_full_dynamic.
+
+(** all methods of the target trait, any number: generated with the [async_trait] attributes of the
+    entraited trait and its options minus mocking, they print as the property says *)
+Theorem c07_target_sigs : forall (recv : sig -> sig) dyn attrs o src,
+  (forall subs o s, print_sig (make_trait_fn_sig (recv s) subs o) = c07_target_sig_full dyn (contains_async_trait subs) (future_send o) s) ->
+  map (fun '(_, s) => print_sig s)
+      (map (fun x : list attr * sig => (fst x, make_trait_fn_sig (recv (snd x)) (filter is_async_trait attrs) (no_mock_opts o))) src)
+  = map (fun '(_, s) => c07_target_sig_full dyn (contains_async_trait attrs) (future_send o) s) src.
+Proof. exact target_sigs_full. Qed.
+Print Assumptions c07_target_sigs.
+
 (** the forwarding call is [<EntraitT::Target as it<EntraitT>>::m(self, args)] under the bound
     [EntraitT: Trait<EntraitT> + ::core::marker::Sync + 'static] *)
 Theorem c07_call_static : forall a ca s it del,
